@@ -231,6 +231,17 @@ Byte:
 			// Ignoring error because this scanner cannot produce errors.
 			advance, _, _ := textseg.ScanGraphemeClusters(buf[i:], true)
 
+			// A cluster that begins with a "prepend" character (such as
+			// U+0600) also takes in the character after it. That character
+			// must not be one that is significant to us: the closing quote,
+			// a backslash or a control character.
+			for j := 1; j < advance; j++ {
+				if c := buf[i+j]; c == '"' || c == '\\' || c < 32 {
+					advance = j
+					break
+				}
+			}
+
 			p.Pos.Byte += advance
 			p.Pos.Column++
 			i += advance
